@@ -58,7 +58,7 @@ def make_user_loss(form, p, weights, filters):
                 return float(np.sum(d * d))
             return float(np.sum(np.abs(d) ** p))
 
-    return UserLoss(None if weights is None else np.array(weights, dtype=float), None if filters is None else [G.build_filter(f) for f in filters])
+    return UserLoss(None if weights is None else (np.array(weights) if all(isinstance(x, int) for x in weights) else np.array(weights, dtype=float)), None if filters is None else [G.build_filter(f) for f in filters])
 
 
 def build(d):
